@@ -54,6 +54,7 @@ var frameIDs = []struct{ frag, id string }{
 	{"collection.(*Collection).searchRect", "crash-area-type-geo"},
 	{"searchRect", "crash-area-type-geo"},
 	{"cmdAOFMD5", "crash-aofmd5-no-aof"},
+	{"(*Server).Collect", "crash-metrics-non-utf8-key"},
 	{"(*Server).checksum", "crash-aofmd5-no-aof"},
 	{"ConvertToRESP", "crash-script-cyclic-table"},
 	{"ConvertToJSON", "crash-script-cyclic-table"},
